@@ -164,7 +164,7 @@ def _check_compiled(chk, m, src, p, result, pid, nstates, seed, level, sig_fn, e
             chk.count("csem_" + exp[0])
             continue
         img = dict(init); img.update(mem)
-        res = prog.run(m, pid, mem=img, a=rs.randrange(256), x=x, y=y, fuel=60000, watch=w)
+        res = prog.run(m, pid, mem=img, a=rs.randrange(256), x=x, y=y, p=rs.choice([0, 1, 2, 3, 128, 129, 64, 195]), fuel=60000, watch=w)
         n += 1
         if not res["stop"].startswith("done"):
             if res["stop"] == "fuel":
